@@ -46,9 +46,12 @@ func DurationValueWithin(d time.Duration) Value {
 			return equal, ok
 		}
 		if xd < yd {
-			return yd-xd <= d, true
+			xd, yd = yd, xd
 		}
-		return xd-yd <= d, true
+		// xd >= yd, so a negative difference means the int64 subtraction overflowed:
+		// the durations are further apart than any time.Duration can express.
+		diff := xd - yd
+		return diff >= 0 && diff <= d, true
 	}
 }
 
